@@ -13,7 +13,7 @@
 #include "prng.h"
 #include "vio_mem.h"
 
-static unsigned char file [1 << 16] ; static size_t flen ;
+static unsigned char file [1 << 18] ; static size_t flen ;
 static void put (const void *p, size_t n) { memcpy (file + flen, p, n) ; flen += n ; }
 static void le16 (unsigned v) { unsigned char b [2] = { v & 255, (v >> 8) & 255 } ; put (b, 2) ; }
 static void le32 (unsigned v) { unsigned char b [4] = { v & 255, (v >> 8) & 255, (v >> 16) & 255, (v >> 24) & 255 } ; put (b, 4) ; }
@@ -47,11 +47,52 @@ static int decode_and_print (const char *tag, int ch, int blockalign, const unsi
 	return 0 ;
 }
 
+/* several blocks per file, as encoders produce them: the header of block k+1 continues the state block k ended in.  The library's own encoder writes
+   the file (random-walk audio), half of the time some code bytes (never header bytes) are then overwritten, and the file is decoded through the API.
+   A decoder that lets one block influence the next is only visible here.   lines: Wn / An / Mn <channels> <blockalign> <all blocks hex> <samples csv> */
+static int multi_block (int c)
+{	int kind = (c / 3) % 3, ch = 1 + (int) (rnd64 () % 2) ;
+	int fmt = kind == 0 ? (SF_FORMAT_WAV | SF_FORMAT_IMA_ADPCM) : kind == 1 ? (SF_FORMAT_AIFF | SF_FORMAT_IMA_ADPCM) : (SF_FORMAT_WAV | SF_FORMAT_MS_ADPCM) ;
+	VIO_MEM m ; memset (&m, 0, sizeof (m)) ;
+	SF_INFO info ; memset (&info, 0, sizeof (info)) ; info.samplerate = 8000 ; info.channels = ch ; info.format = fmt ;
+	SNDFILE *f = sf_open_virtual (&vio_mem_io, SFM_WRITE, &info, &m) ;
+	if (! f) { fprintf (stderr, "kern_adpcm: multi open failed: %s\n", sf_strerror (NULL)) ; vio_free (&m) ; return 1 ; }
+	int frames = kind == 1 ? 64 * (2 + (int) (rnd64 () % 6)) : 600 + (int) (rnd64 () % 1500) ;
+	static short pcm [2 * 4096] ; int x [2] = { (int) (short) rnd64 () / 2, 0 } ; int style = (int) (rnd64 () % 3) ;
+	for (int i = 0 ; i < frames ; i++) for (int k = 0 ; k < ch ; k++)
+	{	int step = style == 0 ? (int) (rnd64 () % 401) - 200 : style == 1 ? (int) (rnd64 () % 8001) - 4000 : (int) (rnd64 () % 41) - 20 ;
+		x [k] += step ; if (x [k] > 32767) x [k] = 32767 ; if (x [k] < -32768) x [k] = -32768 ;
+		pcm [i * ch + k] = (short) x [k] ;
+		}
+	sf_writef_short (f, pcm, frames) ; sf_close (f) ;
+	if (m.len > (sf_count_t) sizeof (file)) { vio_free (&m) ; return 0 ; }
+	memcpy (file, m.data, m.len) ; flen = m.len ; vio_free (&m) ;
+	/* locate the audio data and the block size */
+	size_t off = 12, doff = 0, dlen = 0 ; int blockalign = 34 * ch, hdr = 2 ;
+	while (off + 8 <= flen)
+	{	unsigned sz = kind == 1 ? ((unsigned) file [off + 4] << 24 | file [off + 5] << 16 | file [off + 6] << 8 | file [off + 7]) : ((unsigned) file [off + 7] << 24 | file [off + 6] << 16 | file [off + 5] << 8 | file [off + 4]) ;
+		if (kind != 1 && ! memcmp (file + off, "fmt ", 4)) blockalign = file [off + 8 + 12] | file [off + 8 + 13] << 8 ;
+		if (kind != 1 && ! memcmp (file + off, "data", 4)) { doff = off + 8 ; dlen = sz ; break ; }
+		if (kind == 1 && ! memcmp (file + off, "SSND", 4)) { doff = off + 16 ; dlen = sz - 8 ; break ; }
+		off += 8 + sz + (sz & 1) ;
+		}
+	if (doff == 0 || doff + dlen > flen || blockalign <= 0) { fprintf (stderr, "kern_adpcm: multi: no data chunk\n") ; return 1 ; }
+	hdr = kind == 0 ? 4 * ch : kind == 1 ? 2 : 7 * ch ;
+	if (rnd64 () & 1)
+		for (int k = 0 ; k < 24 ; k++)
+		{	size_t p = (size_t) (rnd64 () % dlen) ; size_t inblk = kind == 1 ? p % 34 : p % (size_t) blockalign ;
+			if ((int) inblk >= hdr) file [doff + p] = (unsigned char) rnd64 () ;
+			}
+	static unsigned char blocks [1 << 18] ; memcpy (blocks, file + doff, dlen) ;
+	return decode_and_print (kind == 0 ? "Wn" : kind == 1 ? "An" : "Mn", ch, blockalign, blocks, (int) dlen) ;
+}
+
 int main (int argc, char **argv)
 {	uint64_t seed = argc > 1 ? strtoull (argv [1], NULL, 0) : 1 ; int cases = argc > 2 ? atoi (argv [2]) : 300 ; int bad = 0 ;
 	prng_seed (seed, 20) ;
 	for (int c = 0 ; c < cases ; c++)
-	{	int kind = c % 3, ch = 1 + (int) (rnd64 () % 2) ;
+	{	if (c % 10 == 9) { bad += multi_block (c) ; continue ; }
+		int kind = c % 3, ch = 1 + (int) (rnd64 () % 2) ;
 		unsigned char block [2048] ;
 		flen = 0 ;
 		if (kind == 0)
